@@ -463,6 +463,21 @@ func c09PrepReal(c *Ctx) {
 					uc = append(uc, s)
 				}
 			}
+			// a path that needs an argument to be nil and not nil at once (a put* that checks for nil and then
+			// delegates to its nullable twin, which checks again) is not a path
+			infeasible := false
+			for _, a := range uc {
+				if strings.HasSuffix(a, "!=nil") {
+					for _, b := range uc {
+						if b == strings.TrimSuffix(a, "!=nil")+"==nil" {
+							infeasible = true
+						}
+					}
+				}
+			}
+			if infeasible {
+				continue
+			}
 			k := strings.Join(uc, "&")
 			if m[k] == nil {
 				m[k] = map[string]bool{}
